@@ -43,6 +43,9 @@ CONSTANTS
     FindInserts,    \* FALSE: find/findall only read the items              (as documented)
     IncCache,       \* "none": every INCLUDE is read from the resolved path       (as written)
                     \* "by_name": the parser keeps include texts under the name as written
+    CdictRebuilt,   \* TRUE: comments_dict is a new dict in every parse                    (as written)
+    IncResolve,     \* "join": an INCLUDE name is joined to the folder of the document (as written)
+                    \* "chdir": the process changes into that folder, resolves, reads, changes back
     FormatOnCopy,   \* TRUE: the printer builds new values, never edits list items (as written)
     Record          \* TRUE: keep the call history and the schedule for emission
 
@@ -52,9 +55,10 @@ VARIABLES
     raw, exp, sobj,             \* Validator fields per object; schema objects (pruned entries)
     args,                       \* the dictionaries the callers hold (the arguments)
     fin, hist, sched,           \* call just completed per thread; history and schedule (when Record)
-    running, sid                \* scheduler: thread inside a segment; script id
+    running, sid,               \* scheduler: thread inside a segment; script id
+    cwd                         \* process-wide state shared by all threads: the working directory
 
-vars == <<pc, cur, ncalls, buf, cdict, mt, icache, raw, exp, sobj, args, fin, hist, sched, running, sid>>
+vars == <<pc, cur, ncalls, buf, cdict, mt, icache, raw, exp, sobj, args, fin, hist, sched, running, sid, cwd>>
 
 -----------------------------------------------------------------------------
 (* Documents                                                               *)
@@ -74,7 +78,11 @@ DocTable ==
       [ntok |-> 3, fail |-> 3, com |-> {},     faults |-> {},     entries |-> {},             some |-> FALSE, inc |-> 0, dir |-> 3],
       \* two documents in different folders, both with INCLUDE "<name 1>"; the files differ
       [ntok |-> 3, fail |-> 0, com |-> {1},    faults |-> {},     entries |-> {},             some |-> FALSE, inc |-> 1, dir |-> 1],
-      [ntok |-> 3, fail |-> 0, com |-> {3},    faults |-> {},     entries |-> {},             some |-> FALSE, inc |-> 1, dir |-> 2]>>
+      [ntok |-> 3, fail |-> 0, com |-> {3},    faults |-> {},     entries |-> {},             some |-> FALSE, inc |-> 1, dir |-> 2],
+      \* text (no file name) whose INCLUDE "<name 2>" is relative to the working directory of the process (dir 0)
+      [ntok |-> 3, fail |-> 0, com |-> {2},    faults |-> {},     entries |-> {},             some |-> FALSE, inc |-> 2, dir |-> 0],
+      \* a short document with a comment after its last node (line ntok + 1): no node claims it
+      [ntok |-> 2, fail |-> 0, com |-> {1, 3}, faults |-> {},     entries |-> {},             some |-> FALSE, inc |-> 0, dir |-> 3]>>
 
 AllDocs   == 1..Len(DocTable)
 DictDocs  == {d \in AllDocs : DocTable[d].fail = 0}      \* documents that exist as dictionaries
@@ -87,11 +95,16 @@ FindKeys  == {"all", "some"}                             \* key every item has /
 Content(dir, name) == [dir |-> dir, name |-> name]
 NoInc              == [dir |-> 0, name |-> 0]
 
+Cwd0            == 9                  \* the folder the process runs in
+\* which include files exist: <name 1> in folders 1 and 2, <name 2> in the working directory
+Exists(dir, name) == <<dir, name>> \in {<<1, 1>>, <<2, 1>>, <<Cwd0, 2>>}
+
 Comment(d, k)   == [doc |-> d, line |-> k]
-CommentsOf(d)   == {Comment(d, k) : k \in DocTable[d].com}
+\* comments a node claims: those up to the line of the last node
+CommentsOf(d)   == {Comment(d, k) : k \in {x \in DocTable[d].com : x <= DocTable[d].ntok}}
 
 \* the harness builds one concrete Mapfile per abstract document from this table (printed once per run)
-ASSUME PrintT(ToJson([doctable |-> DocTable]))
+ASSUME PrintT(ToJson([doctable |-> DocTable, cwd0 |-> Cwd0]))
 
 -----------------------------------------------------------------------------
 (* Worker objects                                                          *)
@@ -112,7 +125,7 @@ NoRet  == [k |-> "none"]
 Err    == [k |-> "error"]
 Heap0  == [order |-> "orig", extra |-> {}, lower |-> FALSE, vcom |-> FALSE, quoted |-> FALSE]
 NoCall == [kind |-> "none", doc |-> 0, com |-> FALSE, ver |-> 0, key |-> "all", seams |-> {}, n |-> 0,
-           snap |-> Heap0, att |-> {}, incl |-> NoInc, sch |-> 0, hit |-> FALSE, keys |-> {}, ret |-> NoRet]
+           snap |-> Heap0, att |-> {}, incl |-> NoInc, ipath |-> NoInc, saved |-> 0, sch |-> 0, hit |-> FALSE, keys |-> {}, ret |-> NoRet]
 
 -----------------------------------------------------------------------------
 (* F: what a call must return, as a function of its arguments only         *)
@@ -122,7 +135,8 @@ F(c) ==
             IF DocTable[c.doc].fail # 0 THEN Err
             ELSE [k |-> "dict", doc |-> c.doc, comments |-> IF c.com THEN CommentsOf(c.doc) ELSE {},
                   inc |-> IF DocTable[c.doc].inc = 0 THEN NoInc
-                          ELSE Content(DocTable[c.doc].dir, DocTable[c.doc].inc)]
+                          ELSE Content(IF DocTable[c.doc].dir = 0 THEN Cwd0 ELSE DocTable[c.doc].dir,
+                                       DocTable[c.doc].inc)]
       [] c.kind \in {"dumps", "dumps_sep"} ->
             [k |-> "text", doc |-> c.doc, order |-> IF c.kind = "dumps_sep" THEN "sep" ELSE c.snap.order,
              extra |-> c.snap.extra, lower |-> c.snap.lower, vcom |-> c.snap.vcom, quoted |-> c.snap.quoted,
@@ -208,7 +222,7 @@ Start(t) ==
                                  !.snap = IF m.kind \in DictKinds THEN args[m.doc] ELSE Heap0]
          IN  Step(t, FirstPc(m.kind), c)
     /\ ncalls' = [ncalls EXCEPT ![t] = @ + 1]
-    /\ UNCHANGED <<buf, cdict, mt, icache, raw, exp, sobj, args, sid>>
+    /\ UNCHANGED <<buf, cdict, mt, icache, raw, exp, sobj, args, sid, cwd>>
 
 -----------------------------------------------------------------------------
 (* loads = Parser(...).parse(text) ; MapfileToDict(...).transform(tree)    *)
@@ -221,66 +235,91 @@ LAlloc(t) ==                       \* Parser(), MapfileToDict(): new objects unl
             /\ mt' = [mt EXCEPT ![t] = NoT]
             /\ icache' = [icache EXCEPT ![t] = {}]
     /\ Step(t, "incl", cur[t])
-    /\ UNCHANGED <<ncalls, raw, exp, sobj, args, sid>>
+    /\ UNCHANGED <<ncalls, raw, exp, sobj, args, sid, cwd>>
 
 \* text = self.load_includes(text, fn): every INCLUDE line is replaced by the text of the file its
-\* name resolves to, relative to the folder of the document
+\* name resolves to, relative to the folder of the document (for text without a file name: the
+\* working directory of the process).  Three steps: find the directive, resolve the path, read.
 LIncl(t) ==
     /\ pc[t] = "incl"
     /\ LET c == cur[t]
            d == DocTable[c.doc]
-           p == POf(t)
-           kept == {e \in icache[p] : e.name = d.inc}
+           folder == IF d.dir = 0 THEN cwd ELSE d.dir
        IN  IF d.inc = 0
            THEN /\ Step(t, "clear", c)
-                /\ UNCHANGED icache
-           ELSE IF IncCache = "by_name" /\ kept # {}
-           THEN /\ Step(t, "clear", [c EXCEPT !.incl = (CHOOSE e \in kept : TRUE).content])
-                /\ UNCHANGED icache
-           ELSE /\ Step(t, "clear", [c EXCEPT !.incl = Content(d.dir, d.inc)])
-                /\ icache' = IF IncCache = "by_name"
-                             THEN [icache EXCEPT ![p] = @ \cup {[name |-> d.inc, content |-> Content(d.dir, d.inc)]}]
-                             ELSE icache
+                /\ UNCHANGED cwd
+           ELSE /\ Step(t, "iresolve", [c EXCEPT !.saved = cwd, !.ipath = Content(folder, d.inc)])
+                /\ cwd' = IF IncResolve = "chdir" THEN folder ELSE cwd
+    /\ UNCHANGED <<ncalls, buf, cdict, mt, icache, raw, exp, sobj, args, sid>>
+
+LResolve(t) ==                     \* the absolute path of the include file
+    /\ pc[t] = "iresolve"
+    /\ LET c == cur[t]
+       IN  Step(t, "iread", IF IncResolve = "chdir" THEN [c EXCEPT !.ipath = Content(cwd, c.ipath.name)] ELSE c)
+    /\ UNCHANGED <<ncalls, buf, cdict, mt, icache, raw, exp, sobj, args, sid, cwd>>
+
+LRead(t) ==                        \* include_text = self.open_file(inc_file_path)
+    /\ pc[t] = "iread"
+    /\ LET c == cur[t]
+           p == POf(t)
+           kept == {e \in icache[p] : e.name = c.ipath.name}
+       IN  /\ cwd' = IF IncResolve = "chdir" THEN c.saved ELSE cwd
+           /\ IF IncCache = "by_name" /\ kept # {}
+              THEN /\ Step(t, "clear", [c EXCEPT !.incl = (CHOOSE e \in kept : TRUE).content])
+                   /\ UNCHANGED icache
+              ELSE IF ~Exists(c.ipath.dir, c.ipath.name)
+              THEN /\ Step(t, "ret", [c EXCEPT !.ret = [k |-> "ioerror"]])
+                   /\ UNCHANGED icache
+              ELSE /\ Step(t, "clear", [c EXCEPT !.incl = c.ipath])
+                   /\ icache' = IF IncCache = "by_name"
+                                THEN [icache EXCEPT ![p] = @ \cup {[name |-> c.ipath.name, content |-> c.ipath]}]
+                                ELSE icache
     /\ UNCHANGED <<ncalls, buf, cdict, mt, raw, exp, sobj, args, sid>>
 
 LClear(t) ==                       \* self._comments[:] = []
     /\ pc[t] = "clear"
     /\ buf' = IF ClearsBuf THEN [buf EXCEPT ![POf(t)] = <<>>] ELSE buf
     /\ Step(t, "lex1", cur[t])
-    /\ UNCHANGED <<ncalls, cdict, mt, icache, raw, exp, sobj, args, sid>>
+    /\ UNCHANGED <<ncalls, cdict, mt, icache, raw, exp, sobj, args, sid, cwd>>
 
 LLex(t, k) ==                      \* one token; the lexer callback appends a comment to the buffer
     /\ pc[t] = LexPc(k)
     /\ LET c == cur[t]
            d == DocTable[c.doc]
-       IN  /\ buf' = IF c.com /\ k \in d.com
-                     THEN [buf EXCEPT ![POf(t)] = Append(@, Comment(c.doc, k))] ELSE buf
+           own == IF k \in d.com THEN <<Comment(c.doc, k)>> ELSE <<>>
+           \* a comment after the last node is lexed when the lexer runs to the end of the text
+           tail == IF k = d.ntok /\ d.fail = 0 /\ (k + 1) \in d.com THEN <<Comment(c.doc, k + 1)>> ELSE <<>>
+       IN  /\ buf' = IF c.com THEN [buf EXCEPT ![POf(t)] = @ \o own \o tail] ELSE buf
            /\ IF d.fail = k
               THEN Step(t, "ret", [c EXCEPT !.ret = Err])          \* parse error: buffer left as it is
               ELSE Step(t, IF k < d.ntok THEN LexPc(k + 1) ELSE IF c.com THEN "cdict" ELSE "tnew", c)
-    /\ UNCHANGED <<ncalls, cdict, mt, icache, raw, exp, sobj, args, sid>>
+    /\ UNCHANGED <<ncalls, cdict, mt, icache, raw, exp, sobj, args, sid, cwd>>
 
 \* comments_dict[c.line] = c.value for c in _comments: a later comment on a line replaces an earlier
 LastPerLine(b) == {b[i] : i \in {j \in 1..Len(b) : \A h \in (j + 1)..Len(b) : b[h].line # b[j].line}}
 
 LCdict(t) ==
     /\ pc[t] = "cdict"
-    /\ cdict' = [cdict EXCEPT ![POf(t)] = LastPerLine(buf[POf(t)])]
+    \* self.comments_dict = {} ; then one entry per buffered comment (an entry of an earlier parse on
+    \* the same line is replaced, any other entry stays when the dict is not rebuilt)
+    /\ LET new == LastPerLine(buf[POf(t)])
+           old == IF CdictRebuilt THEN {} ELSE {x \in cdict[POf(t)] : \A y \in new : y.line # x.line}
+       IN  cdict' = [cdict EXCEPT ![POf(t)] = new \cup old]
     /\ Step(t, "assign", cur[t])
-    /\ UNCHANGED <<ncalls, buf, mt, icache, raw, exp, sobj, args, sid>>
+    /\ UNCHANGED <<ncalls, buf, mt, icache, raw, exp, sobj, args, sid, cwd>>
 
 LAssign(t) ==                      \* _assign_comments pops every comment up to the last node's line
     /\ pc[t] = "assign"
     /\ LET take == {x \in cdict[POf(t)] : x.line <= DocTable[cur[t].doc].ntok}
        IN  /\ cdict' = [cdict EXCEPT ![POf(t)] = @ \ take]
            /\ Step(t, "tnew", [cur[t] EXCEPT !.att = take])
-    /\ UNCHANGED <<ncalls, buf, mt, icache, raw, exp, sobj, args, sid>>
+    /\ UNCHANGED <<ncalls, buf, mt, icache, raw, exp, sobj, args, sid, cwd>>
 
 LTnew(t) ==                        \* self.mapfile_transformer = transformer_class(...)
     /\ pc[t] = "tnew"
     /\ mt' = [mt EXCEPT ![POf(t)] = [by |-> t, com |-> cur[t].com]]
     /\ Step(t, "trun", cur[t])
-    /\ UNCHANGED <<ncalls, buf, cdict, icache, raw, exp, sobj, args, sid>>
+    /\ UNCHANGED <<ncalls, buf, cdict, icache, raw, exp, sobj, args, sid, cwd>>
 
 LTrun(t) ==                        \* return self.mapfile_transformer.transform(tree)
     /\ pc[t] = "trun"
@@ -288,7 +327,7 @@ LTrun(t) ==                        \* return self.mapfile_transformer.transform(
        IN  Step(t, "ret", [c EXCEPT !.ret = [k |-> "dict", doc |-> c.doc,
                                              comments |-> IF mt[POf(t)].com THEN c.att ELSE {},
                                              inc |-> c.incl]])
-    /\ UNCHANGED <<ncalls, buf, cdict, mt, icache, raw, exp, sobj, args, sid>>
+    /\ UNCHANGED <<ncalls, buf, cdict, mt, icache, raw, exp, sobj, args, sid, cwd>>
 
 -----------------------------------------------------------------------------
 (* dumps = PrettyPrinter(...).pprint(d)                                    *)
@@ -302,7 +341,7 @@ DAlloc(t) ==
        ELSE /\ raw' = [raw EXCEPT ![PVOf(t)] = {}]
             /\ exp' = [exp EXCEPT ![PVOf(t)] = {}]
     /\ Step(t, "schema", cur[t])
-    /\ UNCHANGED <<ncalls, buf, cdict, mt, icache, sobj, args, sid>>
+    /\ UNCHANGED <<ncalls, buf, cdict, mt, icache, sobj, args, sid, cwd>>
 
 DSchema(t) ==                      \* self.validator.get_expanded_schema(type_): unversioned entry
     /\ pc[t] = "schema"
@@ -315,7 +354,7 @@ DSchema(t) ==                      \* self.validator.get_expanded_schema(type_):
            ELSE /\ sobj' = [sobj EXCEPT ![NewS(t)] = {}]
                 /\ exp' = [exp EXCEPT ![v] = @ \cup {[key |-> key, obj |-> NewS(t)]}]
                 /\ Step(t, "format", [cur[t] EXCEPT !.sch = NewS(t)])
-    /\ UNCHANGED <<ncalls, buf, cdict, mt, icache, raw, args, sid>>
+    /\ UNCHANGED <<ncalls, buf, cdict, mt, icache, raw, args, sid, cwd>>
 
 DFormat(t) ==
     /\ pc[t] = "format"
@@ -331,7 +370,7 @@ DFormat(t) ==
                                                 extra |-> h.extra, lower |-> h.lower, vcom |-> h.vcom,
                                                 quoted |-> h.quoted,
                                                 removed |-> sobj[c.sch]]])
-    /\ UNCHANGED <<ncalls, buf, cdict, mt, icache, raw, exp, sobj, sid>>
+    /\ UNCHANGED <<ncalls, buf, cdict, mt, icache, raw, exp, sobj, sid, cwd>>
 
 -----------------------------------------------------------------------------
 (* validate = Validator().validate(d, version=v)                           *)
@@ -342,13 +381,13 @@ VAlloc(t) ==
        ELSE /\ raw' = [raw EXCEPT ![VOf(t)] = {}]
             /\ exp' = [exp EXCEPT ![VOf(t)] = {}]
     /\ Step(t, IF cur[t].ver = 0 THEN "raw" ELSE "xchk", cur[t])
-    /\ UNCHANGED <<ncalls, buf, cdict, mt, icache, sobj, args, sid>>
+    /\ UNCHANGED <<ncalls, buf, cdict, mt, icache, sobj, args, sid, cwd>>
 
 VRaw(t) ==                         \* get_schema_validator: raw schema file cache, registry
     /\ pc[t] = "raw"
     /\ raw' = [raw EXCEPT ![VOf(t)] = @ \cup {"map"}]
     /\ Step(t, "lower", cur[t])
-    /\ UNCHANGED <<ncalls, buf, cdict, mt, icache, exp, sobj, args, sid>>
+    /\ UNCHANGED <<ncalls, buf, cdict, mt, icache, exp, sobj, args, sid, cwd>>
 
 CacheKey(ver) == <<"map", IF KeyByVersion THEN ver ELSE 1>>
 
@@ -360,7 +399,7 @@ VXchk(t) ==                        \* if cache_schema_name not in self.expanded_
                 /\ UNCHANGED sobj
            ELSE /\ sobj' = [sobj EXCEPT ![NewS(t)] = {}]              \* jsonref.load: a new object
                 /\ Step(t, "xins", [cur[t] EXCEPT !.hit = FALSE, !.sch = NewS(t)])
-    /\ UNCHANGED <<ncalls, buf, cdict, mt, icache, raw, exp, args, sid>>
+    /\ UNCHANGED <<ncalls, buf, cdict, mt, icache, raw, exp, args, sid, cwd>>
 
 VXins(t) ==                        \* self.expanded_schemas[cache_schema_name] = jsn_schema
     /\ pc[t] = "xins"
@@ -368,12 +407,12 @@ VXins(t) ==                        \* self.expanded_schemas[cache_schema_name] =
        IN  exp' = IF cur[t].hit THEN exp
                   ELSE [exp EXCEPT ![VOf(t)] = (@ \ Lookup(VOf(t), key)) \cup {[key |-> key, obj |-> cur[t].sch]}]
     /\ Step(t, "pkeys", cur[t])
-    /\ UNCHANGED <<ncalls, buf, cdict, mt, icache, raw, sobj, args, sid>>
+    /\ UNCHANGED <<ncalls, buf, cdict, mt, icache, raw, sobj, args, sid, cwd>>
 
 VPkeys(t) ==                       \* keys_copy = list(properties.keys())
     /\ pc[t] = "pkeys"
     /\ Step(t, "prune1", [cur[t] EXCEPT !.keys = Entries \ sobj[cur[t].sch]])
-    /\ UNCHANGED <<ncalls, buf, cdict, mt, icache, raw, exp, sobj, args, sid>>
+    /\ UNCHANGED <<ncalls, buf, cdict, mt, icache, raw, exp, sobj, args, sid, cwd>>
 
 \* for key in keys_copy: v = properties[key]; del properties[key] when out of range - in place, on
 \* the cached object.  A key deleted by somebody else since the copy was taken: KeyError.
@@ -386,13 +425,13 @@ VPrune(t, here, e, next) ==
            ELSE /\ sobj' = IF e \in c.keys /\ ~InRange(e, c.ver) THEN [sobj EXCEPT ![c.sch] = @ \cup {e}]
                            ELSE sobj
                 /\ Step(t, next, c)
-    /\ UNCHANGED <<ncalls, buf, cdict, mt, icache, raw, exp, args, sid>>
+    /\ UNCHANGED <<ncalls, buf, cdict, mt, icache, raw, exp, args, sid, cwd>>
 
 VLower(t) ==                       \* lowercase_dict = self.convert_lowercase(d): a copy
     /\ pc[t] = "lower"
     /\ args' = IF LowerOnCopy THEN args ELSE [args EXCEPT ![cur[t].doc].lower = TRUE]
     /\ Step(t, "judge", cur[t])
-    /\ UNCHANGED <<ncalls, buf, cdict, mt, icache, raw, exp, sobj, sid>>
+    /\ UNCHANGED <<ncalls, buf, cdict, mt, icache, raw, exp, sobj, sid, cwd>>
 
 VJudge(t) ==
     /\ pc[t] = "judge"
@@ -402,7 +441,7 @@ VJudge(t) ==
        IN  /\ args' = IF c.kind = "validate_addc" /\ errs # {} THEN [args EXCEPT ![c.doc].vcom = TRUE]
                       ELSE args
            /\ Step(t, "ret", [c EXCEPT !.ret = [k |-> "msgs", doc |-> c.doc, errs |-> errs]])
-    /\ UNCHANGED <<ncalls, buf, cdict, mt, icache, raw, exp, sobj, sid>>
+    /\ UNCHANGED <<ncalls, buf, cdict, mt, icache, raw, exp, sobj, sid, cwd>>
 
 -----------------------------------------------------------------------------
 (* find / findall / findunique / findkey                                   *)
@@ -414,19 +453,19 @@ QRun(t) ==
                       THEN [args EXCEPT ![c.doc].extra = @ \cup {"some"}] ELSE args
            /\ Step(t, "ret", [c EXCEPT !.ret = [k |-> "items", doc |-> c.doc, key |-> c.key,
                                                 kind |-> c.kind]])
-    /\ UNCHANGED <<ncalls, buf, cdict, mt, icache, raw, exp, sobj, sid>>
+    /\ UNCHANGED <<ncalls, buf, cdict, mt, icache, raw, exp, sobj, sid, cwd>>
 
 Return(t) ==
     /\ pc[t] = "ret"
     /\ Step(t, "idle", cur[t])
-    /\ UNCHANGED <<ncalls, buf, cdict, mt, icache, raw, exp, sobj, args, sid>>
+    /\ UNCHANGED <<ncalls, buf, cdict, mt, icache, raw, exp, sobj, args, sid, cwd>>
 
 -----------------------------------------------------------------------------
 
 ThreadStep(t) ==
     /\ CanRun(t)
     /\ \/ Start(t)
-       \/ LAlloc(t) \/ LIncl(t) \/ LClear(t) \/ (\E k \in 1..4 : LLex(t, k)) \/ LCdict(t) \/ LAssign(t)
+       \/ LAlloc(t) \/ LIncl(t) \/ LResolve(t) \/ LRead(t) \/ LClear(t) \/ (\E k \in 1..4 : LLex(t, k)) \/ LCdict(t) \/ LAssign(t)
        \/ LTnew(t) \/ LTrun(t)
        \/ DAlloc(t) \/ DSchema(t) \/ DFormat(t)
        \/ VAlloc(t) \/ VRaw(t) \/ VXchk(t) \/ VXins(t)
@@ -449,6 +488,7 @@ Init ==
     /\ sobj = [s \in SObjs |-> {}]
     /\ args = [d \in DictDocs |-> Heap0]
     /\ fin = [t \in Threads |-> NoFin]
+    /\ cwd = Cwd0
     /\ hist = <<>>
     /\ sched = <<>>
     /\ running = 0
@@ -476,6 +516,9 @@ TypeOK ==
     /\ \A d \in DictDocs : args[d].order \in {"orig", "sep"}
 
 AllIdle  == \A t \in Threads : pc[t] = "idle"
+
+\* no call leaves the process in another working directory
+CwdRestored == AllIdle => cwd = Cwd0
 Finished == AllIdle /\ (Total = MaxCalls \/ \A t \in Threads : ~HasNext(t))
 
 \* emission (G): complete call histories / schedules, printed once per distinct final state
